@@ -20,7 +20,8 @@ def _add(store, stix_data, allow_custom=True, version=None):
 
     Args:
         store: A MemoryStore, MemorySink or MemorySource object.
-        stix_data (list OR dict OR STIX object): STIX objects to be added
+        stix_data (list OR dict OR str OR STIX object): STIX objects to be
+            added (a str is taken as JSON-encoded STIX object or bundle)
         allow_custom (bool): Whether to allow custom properties as well unknown
             custom objects. Note that unknown custom objects cannot be parsed
             into STIX objects, and will be returned as is. Default: False.
@@ -29,6 +30,10 @@ def _add(store, stix_data, allow_custom=True, version=None):
             out the spec representation of the object.
 
     """
+    if isinstance(stix_data, str):
+        # JSON-encoded STIX object or bundle
+        stix_data = json.loads(stix_data)
+
     if isinstance(stix_data, list):
         # STIX objects are in a list- recurse on each object
         for stix_obj in stix_data:
